@@ -122,6 +122,8 @@ func init() {
 
 	add("b19", cid.NewCidV1(cid.Raw, idmh(huge)), huge, "xhuge") // identity, 200-byte digest: CID longer than 128 bytes
 
+	add("b20", cid.NewCidV1(cid.DagProtobuf, d1), x1, "x1") // CIDv1 dag-pb on b3's multihash: same codec and hash as the CIDv0, other CID
+
 	// digest identities
 	type dk struct{ s string }
 	seen := map[string]string{}
